@@ -17,6 +17,7 @@ type half struct {
 	buf    []byte
 	closed bool
 	log    []byte // everything ever written into this half
+	inj    []byte // tail of what was injected into this half (WriteHook only)
 }
 
 type Conn struct {
@@ -62,10 +63,28 @@ func (c *Conn) Write(p []byte) (int, error) {
 	if h.closed {
 		return 0, net.ErrClosed
 	}
+	if WriteHook != nil {
+		WriteHook(logTail(h.log), p)
+	}
 	h.buf = append(h.buf, p...)
 	h.log = append(h.log, p...)
 	h.cond.Broadcast()
 	return len(p), nil
+}
+
+// WriteHook, when set (before any Conn is used), sees every chunk that enters a pipe direction
+// (Write and Inject): tail is up to TailLen bytes that entered the same direction just before p.
+// The harness uses it to record names that crossed ITS OWN wire (FS directory names); it must not
+// retain or modify the slices.
+var WriteHook func(tail, p []byte)
+
+const TailLen = 512
+
+func logTail(l []byte) []byte {
+	if len(l) > TailLen {
+		return l[len(l)-TailLen:]
+	}
+	return l
 }
 
 // Close closes both directions (like a TCP close seen by both sides).
@@ -93,6 +112,10 @@ func (c *Conn) Written() []byte {
 func (c *Conn) Inject(p []byte) {
 	h := c.rd
 	h.mu.Lock()
+	if WriteHook != nil {
+		WriteHook(logTail(h.inj), p)
+	}
+	h.inj = append(logTail(h.inj), p...)
 	h.buf = append(h.buf, p...)
 	h.cond.Broadcast()
 	h.mu.Unlock()
